@@ -174,3 +174,37 @@ pub fn c16_idct_rectangular_impulse_responses() {
     idct_2d_impulse::<4, 8, 32>(&BASIS_4, &BASIS_8, 7, 2);
     kani::cover!(true, "all impulses executed");
 }
+
+fn idct_1d_impulse_inverse_only<const N: usize>(basis: &[[f64; N]; N], k: usize) {
+    let v = amplitude();
+    let mut buf = [0f32; N];
+    buf[k] = v;
+    {
+        let mut g = MutableSubgrid::from_buf(&mut buf[..], N, 1, N);
+        generic_dct_2d(&mut g, false);
+    }
+    let i: usize = kani::any();
+    kani::assume(i < N);
+    assert!(close(buf[i], v as f64 * basis[k][i], (v as f64).abs()));
+}
+
+// @prop C16
+// @tier quick
+// @unit jxl_render::vardct::generic::dct::{dct_2d,dct} 8-point inverse kernel (the kernel every size from 8 up recurses into)
+// @sym impulse amplitude from the 6-value table; all eight impulse positions (enumerated); inspected output sample symbolic
+// @bound 8-point inverse transform (the forward transform of the results is in the thorough tier)
+// @oblig output(i) = amplitude * c_k * cos((2i+1)k pi/16) within 1e-5 relative
+// @outside as c16_idct8_impulse_responses
+#[kani::proof]
+#[kani::unwind(10)]
+pub fn c16_idct8_selected_impulses() {
+    idct_1d_impulse_inverse_only::<8>(&BASIS_8, 0);
+    idct_1d_impulse_inverse_only::<8>(&BASIS_8, 1);
+    idct_1d_impulse_inverse_only::<8>(&BASIS_8, 2);
+    idct_1d_impulse_inverse_only::<8>(&BASIS_8, 3);
+    idct_1d_impulse_inverse_only::<8>(&BASIS_8, 4);
+    idct_1d_impulse_inverse_only::<8>(&BASIS_8, 5);
+    idct_1d_impulse_inverse_only::<8>(&BASIS_8, 6);
+    idct_1d_impulse_inverse_only::<8>(&BASIS_8, 7);
+    kani::cover!(true, "all impulses executed");
+}
